@@ -159,11 +159,13 @@ impl<R: std::io::Read> std::io::Read for ZipCryptoReaderValid<R> {
         // Note: There might be potential for optimization. Inspiration can be found at:
         // https://github.com/kornelski/7z/blob/master/CPP/7zip/Crypto/ZipCrypto.cpp
 
-        let result = self.reader.file.read(buf);
-        for byte in buf.iter_mut() {
+        let count = self.reader.file.read(buf)?;
+        // Only the bytes actually read are ciphertext: decrypting (and advancing the keys over)
+        // the rest of the buffer would desynchronise the cipher after a short read.
+        for byte in buf[..count].iter_mut() {
             *byte = self.reader.keys.decrypt_byte(*byte);
         }
-        result
+        Ok(count)
     }
 }
 
